@@ -35,12 +35,12 @@ SOFT = {
     'C06': dict(twins=['C06.cli', 'C06.func'], floor=4, soft=['C06.thresh', 'C06.stale', 'C06.flags', 'C06.fasta'], strong=['C06.stale']),
     'C07': dict(twins=['C07.cli', 'C07.e2e', 'C07.func'], floor=4, soft=['C07.guard', 'C07.rows', 'C07.missing'], strong=['C07.guard', 'C07.rows', 'C07.missing']),
     'C08': dict(twins=['C08.cli', 'C08.e2e', 'C08.func'], floor=3, soft=['C08.arity', 'C08.names', 'C08.guard'], strong=[]),
-    'C09': dict(twins=['C09.cli', 'C09.e2e'], floor=13, soft=['C09.k'], strong=['C09.k']),
+    'C09': dict(twins=['C09.cli', 'C09.e2e', 'C09.func'], floor=14, soft=['C09.k'], strong=['C09.k']),
     'C11': dict(twins=['C11.func', 'C11.cli'], floor=4, soft=['C11.column', 'C11.offsets', 'C11.combine', 'C11.vote'], strong=['C11.column', 'C11.vote']),
     'C12': dict(twins=['C12.cli', 'C12.func'], floor=3, soft=['C12.qualcmp', 'C12.sibling', 'C12.middle', 'C12.life'], strong=['C12.middle']),
     'C13': dict(twins=['C13.cli', 'C13.e2e', 'C13.func'], floor=3, soft=['C13.args', 'C13.nofilter', 'C13.window'], strong=['C13.window']),
     'C14': dict(twins=['C14.cli', 'C14.e2e'], floor=3, soft=['C14.const', 'C14.pair', 'C14.enum'], strong=['C14.enum', 'C14.const', 'C14.pair']),
-    'C16': dict(twins=['C16.func'], floor=1, soft=['C16.window'], strong=['C16.window']),
+    'C16': dict(twins=['C16.func'], floor=2, soft=['C16.window'], strong=['C16.window']),
     'C17': dict(twins=['C17.e2e', 'C17.cli'], floor=3, soft=['C17.gate', 'C17.missing', 'C17.len', 'C17.leaf'], strong=['C17.missing', 'C17.leaf:compare_samples', 'C17.leaf:sequence-codec']),
     'C18': dict(twins=['C18.e2e', 'C18.cli'], floor=2, soft=['C18.gt', 'C18.gate', 'C18.dedup', 'C18.leaf'], strong=['C18.gate', 'C18.leaf:compare_samples', 'C18.leaf:sequence-codec']),
     'C20': dict(twins=['C20.func', 'C20.cli'], floor=4, soft=['C20.iter', 'C20.window', 'C20.index', 'C20.grad'], strong=['C20.index:writer', 'C20.window', 'C20.grad']),
